@@ -16,9 +16,9 @@ use rtcp_types::{
 };
 
 use crate::ast::*;
-use crate::custom::Custom;
+use crate::custom::{Custom, UnitPkt};
 use crate::render::*;
-use crate::view::dump_kind;
+use crate::view::dump_kind_again;
 
 // ---------------------------------------------------------------------------------------------
 // `(probe)`
@@ -466,6 +466,11 @@ fn custom_visit<'r, const PT: u8, const MIN: usize, V: Visitor<'r>>(
     v.visit(b)
 }
 
+/// `(unit PT)`: every one of them is the same zero-sized value.
+fn unit_visit<'r, const PT: u8, V: Visitor<'r>>(v: V) -> V::Out {
+    v.visit(UnitPkt::<PT>)
+}
+
 fn build_with<'r, V: Visitor<'r>>(b: &'r B, ctx: &Ctx<'r>, v: V) -> V::Out {
     match b {
         B::Pb(inner) => build_basic(inner, ctx, AsPb(v)),
@@ -485,6 +490,7 @@ fn build_with<'r, V: Visitor<'r>>(b: &'r B, ctx: &Ctx<'r>, v: V) -> V::Out {
             body,
             calls,
         } => crate::with_grid!(*pt, *min, custom_visit, [V], (v, body, calls)),
+        B::Unit { pt } => crate::with_grid_pt!(*pt, unit_visit, [V], (v)),
         B::Fci(f) => match f {
             Fci::Nack(e) => v.visit(mk_nack(e)),
             Fci::Fir(e) => v.visit(mk_fir(e)),
@@ -556,7 +562,7 @@ impl<'r, 'o> Visitor<'r> for Run<'o> {
             None => out.kv("rt", "res", "panic-write"),
             Some(Err(e)) => out.kv("rt", "res", &format!("write-err:{}", werr(&e))),
             Some(Ok(m)) => match buf.get(..m) {
-                Some(written) => dump_kind(out, "rt", kind, written),
+                Some(written) => dump_kind_again(out, "rt", kind, written),
                 None => out.kv("rt", "res", &format!("bad-len:{m}")),
             },
         }
